@@ -20,6 +20,7 @@ EXPLANATION = ("Abstract interpretation of the allocator with collection provena
                "stale) and a fact store for opaque predicates; exhaustive decision table of BaseTask.can_add_resources; interval "
                "facts on the skill value on every True-returning path of the skill predicates.")
 ASSUMPTIONS = ["the priority sorters return permutations (checked structurally here, in detail by C11 R11.1)"]
+EXHAUSTIVE = "thorough"  # the deciding tables range over the complete finite domain
 TECHNIQUE = "guard dominance via collection-provenance dataflow + exhaustive decision table (abstract interpretation)"
 
 
